@@ -276,6 +276,200 @@ fn locations_case(unit: u64, k: u64, ctx: &mut Ctx) {
     s.shutdown();
 }
 
+// ------------------------------------------------------------------------------------------------ C17 on the wire
+/// Validity of everything the server sends (no comparison with the analysis: that is C09): every URI names a
+/// file of the workspace, every position exists in the current text of the file it belongs to (the line exists,
+/// the UTF-16 column is at most the line's width and does not split a surrogate pair), start <= end.
+pub fn wire_validity_case(unit: u64, k: u64, ctx: &mut Ctx) {
+    let mut rng = Rng::derive(ctx.seed, 0x1700, unit * 1000 + k);
+    let mut cfg = gprog::Cfg::default_for(&mut rng);
+    cfg.max_includes = rng.range(1, 2);
+    cfg.statements = rng.range(3, 8);
+    cfg.non_ascii = rng.chance(1, 2);
+    cfg.crlf = rng.chance(1, 4);
+    cfg.mixed_eol = !cfg.crlf && rng.chance(1, 3);
+    cfg.dead_use = rng.chance(1, 2);
+    let mut p = gprog::generate(&mut rng, cfg);
+    // line structures that differ as much as possible between the files: pad some files with leading blank
+    // lines (appended text would not move anything), others stay dense
+    let mut shifts: Vec<usize> = vec![0; p.files.len()];
+    for fi in 0..p.files.len() {
+        if rng.chance(1, 2) {
+            let pad = "\n".repeat(rng.range(1, 30));
+            shifts[fi] = pad.len();
+            p.files[fi].1 = format!("{}{}", pad, p.files[fi].1);
+        }
+        if rng.chance(1, 4) {
+            // malformed tail (only appended text)
+            let t = format!("{}class Unfinished{} : [{{ \"open", p.files[fi].1.trim_end(), fi);
+            p.files[fi].1 = t;
+            ctx.feature("wire:malformed_tail");
+        }
+    }
+    let w = p.workspace();
+    let case = w.to_json();
+    ctx.current_json(&case);
+    ctx.nontrivial(w.digest());
+    ctx.feature("wire:workspaces");
+    let mut s = Session::start("C17");
+    for (path, text) in &w.files {
+        s.write_disk(path, text);
+    }
+    s.did_open(&w.files[w.root].0, &w.files[w.root].1);
+    if !s.quiesce(WATCHDOG) {
+        ctx.note("watchdog fired while waiting for quiescence (inconclusive sample)");
+        ctx.feature("watchdog");
+        s.abandon();
+        return;
+    }
+    let mut viol: Vec<(String, String)> = Vec::new();
+    // validation of one position / range against a file's text
+    fn check_pos(text: &str, pos: &Value) -> Result<usize, String> {
+        let rp = RefPos::new(text);
+        let (Some(line), Some(ch)) = (pos["line"].as_u64(), pos["character"].as_u64()) else { return Err(format!("not a position: {}", pos)) };
+        if line as usize >= rp.line_count() {
+            return Err(format!("line {} does not exist ({} lines)", line, rp.line_count()));
+        }
+        if ch as u32 > rp.width16(line as usize) {
+            return Err(format!("character {} is past the end of line {} (width {})", ch, line, rp.width16(line as usize)));
+        }
+        rp.from_line_col(line as u32, ch as u32).ok_or_else(|| format!("({}, {}) splits a surrogate pair", line, ch))
+    }
+    fn check_range(text: &str, r: &Value) -> Result<(), String> {
+        let a = check_pos(text, &r["start"])?;
+        let b = check_pos(text, &r["end"])?;
+        if a > b {
+            return Err(format!("start after end: {}", r));
+        }
+        Ok(())
+    }
+    // walk a response: ranges with their own uri, ranges of the request's document, positions, line pairs
+    fn walk(v: &Value, own_path: &str, s: &Session, w: &Workspace, kind: &str, seen: &mut u64, viol: &mut Vec<(String, String)>) {
+        match v {
+            Value::Array(a) => a.iter().for_each(|x| walk(x, own_path, s, w, kind, seen, viol)),
+            Value::Object(o) => {
+                let mut path = own_path.to_string();
+                for key in ["uri", "targetUri"] {
+                    if let Some(u) = o.get(key).and_then(|u| u.as_str()) {
+                        match s.rel_of(u).filter(|r| w.text_of(r).is_some()) {
+                            Some(r) => path = r,
+                            None => {
+                                viol.push((format!("wire:{}:uri-outside-workspace", kind), format!("{} names {}, which is no file of the workspace", kind, u)));
+                                return;
+                            }
+                        }
+                    }
+                }
+                if let Some(t) = o.get("target").and_then(|u| u.as_str()) {
+                    if s.rel_of(t).filter(|r| w.text_of(r).is_some()).is_none() {
+                        viol.push((format!("wire:{}:uri-outside-workspace", kind), format!("link target {} is no file of the workspace", t)));
+                    }
+                }
+                let text = w.text_of(&path).unwrap_or("");
+                let other = path != own_path;
+                for key in ["range", "selectionRange", "targetRange", "targetSelectionRange"] {
+                    if let Some(r) = o.get(key) {
+                        *seen += 1;
+                        if let Err(e) = check_range(text, r) {
+                            viol.push((format!("wire:{}:{}", kind, if other { "range-invalid-in-other-file" } else { "range-invalid" }), format!("{} {} in {}: {}", kind, key, path, e)));
+                        }
+                    }
+                }
+                if let Some(pz) = o.get("position") {
+                    *seen += 1;
+                    if let Err(e) = check_pos(text, pz) {
+                        viol.push((format!("wire:{}:position-invalid", kind), format!("{} position in {}: {}", kind, path, e)));
+                    }
+                }
+                if let (Some(a), Some(b)) = (o.get("startLine").and_then(|x| x.as_u64()), o.get("endLine").and_then(|x| x.as_u64())) {
+                    *seen += 1;
+                    let n = RefPos::new(text).line_count() as u64;
+                    if a > b || b >= n {
+                        viol.push((format!("wire:{}:lines-invalid", kind), format!("{} lines {}..{} in {} ({} lines)", kind, a, b, path, n)));
+                    }
+                }
+                for key in ["children", "location"] {
+                    if let Some(c) = o.get(key) {
+                        walk(c, &path, s, w, kind, seen, viol);
+                    }
+                }
+            }
+            _ => {}
+        }
+    }
+    let mut seen = 0u64;
+    let mut probes: Vec<(usize, usize)> = p.uses.iter().map(|u| (u.file, shifts[u.file] + (u.range.0 + u.range.1) / 2)).collect();
+    probes.extend(p.decls.iter().map(|d| (d.file, shifts[d.file] + d.range.0)));
+    probes.truncate(ctx.tier.pick(60, 200));
+    'probes: for (fi, off) in probes {
+        let path = &w.files[fi].0;
+        let text = &w.files[fi].1;
+        if off > text.len() || !text.is_char_boundary(off) {
+            continue;
+        }
+        let rp = RefPos::new(text);
+        let tdp = json!({"textDocument": {"uri": s.uri(path)}, "position": pos_json(&rp, off)});
+        for (method, kind) in [("textDocument/definition", "definition"), ("textDocument/references", "references")] {
+            ctx.eval();
+            let mut params = tdp.clone();
+            if kind == "references" {
+                params["context"] = json!({"includeDeclaration": true});
+            }
+            match s.call(method, params, WATCHDOG) {
+                None => {
+                    ctx.feature("watchdog");
+                    break 'probes;
+                }
+                Some((res, _)) => {
+                    if let Some(v) = res {
+                        let before = seen;
+                        walk(&v, path, &s, &w, kind, &mut seen, &mut viol);
+                        if seen > before {
+                            ctx.feature(&format!("wire:{}_answers", kind));
+                            if v.to_string().matches("\"uri\"").count() > 1 || !v.to_string().contains(&s.uri(path)) {
+                                ctx.feature("wire:answers_naming_another_file");
+                            }
+                        }
+                    }
+                }
+            }
+        }
+    }
+    for (path, text) in &w.files {
+        let td = json!({"textDocument": {"uri": s.uri(path)}});
+        for (method, kind) in [("textDocument/documentSymbol", "documentSymbol"), ("textDocument/foldingRange", "foldingRange"), ("textDocument/documentLink", "documentLink"), ("textDocument/inlayHint", "inlayHint")] {
+            ctx.eval();
+            let mut params = td.clone();
+            if kind == "inlayHint" {
+                params["range"] = range_json(text, 0, text.len());
+            }
+            if let Some((Some(v), _)) = s.call(method, params, WATCHDOG) {
+                walk(&v, path, &s, &w, kind, &mut seen, &mut viol);
+            }
+        }
+    }
+    let (last, _) = s.published();
+    for (path, v) in &last {
+        ctx.eval();
+        match w.text_of(path) {
+            None => {
+                if v.as_array().map(|a| !a.is_empty()).unwrap_or(false) {
+                    viol.push(("wire:publishDiagnostics:uri-outside-workspace".into(), format!("diagnostics published for {}, which is no file of the workspace", path)));
+                }
+            }
+            Some(_) => walk(v, path, &s, &w, "publishDiagnostics", &mut seen, &mut viol),
+        }
+    }
+    ctx.feature_n("wire:ranges_checked", seen);
+    for (sig, what) in viol {
+        ctx.violation(sig, what.chars().take(900).collect::<String>(), case.clone());
+    }
+    for p in take_foreign_panics() {
+        ctx.violation(format!("server-thread-{}", p.signature()), format!("a server thread panicked: {} at {}", p.message, p.location), case.clone());
+    }
+    s.shutdown();
+}
+
 // ------------------------------------------------------------------------------------------------ C11 / C12
 /// One document text: `include`s the next document or not, carries a uniquely named undefined class (a marker
 /// that shows up in a diagnostic) or not, and a uniquely named class (a marker that shows up in the outline).
